@@ -102,16 +102,22 @@ CHECKS = {
                           "of live deadlines at every scheduler step; post-processing progress invariant",
                 text="Single-threaded half: at every scheduler step of the retry/hostile histories ares_timeout() with six "
                      "maxtv values was non-negative, normalised, never later than maxtv or the earliest live deadline, and "
-                     "after every processing call no live query kept a passed deadline. Event-thread half (no application "
-                     "action needed) is decided by the threaded stress engine when present in this tree.",
-                note="Deadlines are read from live queries via ares_private.h; virtual clock."),
+                     "after every processing call no live query kept a passed deadline. Event-thread half (etstress engine, "
+                     "profile timers: 3 back ends x fresh / idle kept-open / busy connection x answering / silent / closing "
+                     "server, requests issued at seeded offsets into the event thread's sleep): every request completed "
+                     "within 4 x its retry budget + 3 s of wall clock with no application action; a miss is reported only "
+                     "with the witness 'event thread inside a wait that is infinite or ends after the deadline', otherwise "
+                     "the case is inconclusive.",
+                note="Deadlines are read from live queries via ares_private.h; virtual clock in the simulator half, generous "
+                     "wall-clock bounds with a state witness in the threaded half."),
     "C09": dict(engine="simnet", category="exploration", design_ref="DESIGN.md §4 C09",
                 technique="runtime monitoring in a deterministic simulator: destination of every transmission checked against "
                           "consecutive-failure counts derived from the public server-state callback stream; probe rules; stream "
                           "anchored to the simulator's ground truth",
                 text="Held on the seeded failover histories explored (1-5 servers changing behaviour over time, rotate on/off, "
                      "failover options, list edits): every transmission went to a server with the fewest announced consecutive "
-                     "failures (first in configuration order without rotation) or was the same-server EDNS-downgrade resend or a "
+                     "failures (first in configuration order without rotation; judged for datagram transmissions, the instant "
+                     "a stream query is queued being unobservable) or was the same-server EDNS-downgrade resend or a "
                      "well-formed probe (copy of a first attempt, after the retry delay, never with chance 0, never two "
                      "pending); retried timeouts/error rcodes had a failure notification, delivered answers a success "
                      "notification from their server, and no success followed anything but a good response.",
@@ -135,6 +141,20 @@ CHECKS = {
                      "0, and showed TTL = original - seconds cached through send/query/search/getaddrinfo forms. "
                      "Soundness only (a cache may always miss).",
                 note="Virtual clock; whole-second ages as the cache itself uses."),
+    "C11": dict(engine="etstress", category="exploration", design_ref="DESIGN.md §4 C11, §8.6",
+                technique="runtime monitoring with ThreadSanitizer: real event thread (epoll/poll/select) over socketpair-backed "
+                          "socket functions, 2-8 client threads with seeded operation mixes and yield injection at lock "
+                          "boundaries; monitors over per-thread event logs (exactly-once, wait_empty ordering on a global "
+                          "sequence counter, bounded completion with a state witness, no-progress watchdog with thread stacks)",
+                text="Held on the runs made (48 short runs quick, 900 thorough; every run >= 2 client threads with overlapping "
+                     "channel operations, hundreds of distinct overlapping operation pairs, thousands of contended lock "
+                     "acquisitions, hundreds of background reloads triggered by rewriting the watched configuration file): "
+                     "no ThreadSanitizer report with a c-ares frame (data race, lock-order inversion, thread leak) other than "
+                     "the listed finding, every request exactly one callback and none after ares_destroy returned, "
+                     "ares_queue_wait_empty returned success only with nothing outstanding that had been issued before the "
+                     "call, every request completed within its generous wall-clock bound, no hang.",
+                note="Samples of schedules, not an enumeration; TSan's history is bounded; the change monitor's hard-coded /etc "
+                     "watch is redirected to a scratch directory at link time."),
     "C12": dict(engine="simnet", category="exploration", design_ref="DESIGN.md §4 C12",
                 technique="runtime monitoring in a deterministic simulator: observed question sequence at the virtual server "
                           "vs. an independent resolv.conf(5) reference model",
